@@ -70,7 +70,7 @@ func (p *CPU) StepRun(bus *device.Bus) error {
 func (p *CPU) execInst(bus *device.Bus, as abi.As, arg *abi.AsRawArgument) error {
 	// 重置0寄存器
 	p.RegX[0] = 0
-	p.RegF[0] = 0
+	// f0 is an ordinary register (only x0/r0 is hard-wired to zero)
 
 	// 当前的PC
 	curPC := p.PC
